@@ -19,6 +19,8 @@ struct Case {
     xseed: u32,
     xmode: u32,
     xscale: f32,
+    /// sequences only: compare after a short, early-stopped training run with dropout layers
+    trained: bool,
 }
 
 fn decode(tape: &[u32], tier: Tier) -> Case {
@@ -65,7 +67,7 @@ fn decode(tape: &[u32], tier: Tier) -> Case {
         }
         s
     };
-    Case { kind, spec, wseed: t.raw(), wmode: t.pick(4) as u32, xseed: t.raw(), xmode: t.pick(4) as u32, xscale: [1.0, 1.0, 0.01, 30.0][t.pick(4)] }
+    Case { kind, spec, wseed: t.raw(), wmode: t.pick(4) as u32, xseed: t.raw(), xmode: t.pick(4) as u32, xscale: [1.0, 1.0, 0.01, 30.0, 300.0][t.pick(5)], trained: t.chance(1, 5) }
 }
 
 fn conv_nondefault(l: &LayerSpec) -> bool {
@@ -88,7 +90,8 @@ fn check_single(case: &Case, ev: &mut CaseEv) -> CheckResult {
     apply_params(&mut net, &ps);
     let rps = to_ref_params(&ps);
     let n_in = count(&spec.input);
-    let x = payload(case.xseed, case.xmode, n_in, case.xscale);
+    let xscale = if matches!(l, LayerSpec::Dense { .. }) { case.xscale } else { case.xscale.min(30.0) };
+    let x = payload(case.xseed, case.xmode, n_in, xscale);
     let xd: Vec<f64> = x.iter().map(|v| *v as f64).collect();
     let p0: Vec<Vec<f64>> = rps.iter().map(|(_, d)| d.clone()).collect();
     let r = ref_layer(l, &p0, &xd, &spec.input);
@@ -189,10 +192,60 @@ fn check_sequence(case: &Case, ev: &mut CaseEv) -> CheckResult {
     if has_fb {
         ev.class("sequence:feedback");
     }
+    // In 1/5 of the sequences the comparison is made on a network that has been through a short,
+    // early-stopped training run with dropout layers: its prediction must still be the composition
+    // of the layers' defining operators at the trained weights.
+    let spec_owned: NetSpec;
+    let trained = case.trained && matches!(spec.layers.last(), Some(LayerSpec::Dense { .. })); // validate() needs a dense output layer
+    let spec = if trained {
+        let mut s2 = spec.clone();
+        for (i, l) in s2.layers.iter_mut().enumerate() {
+            if let LayerSpec::Dense { dropout, .. } | LayerSpec::Conv { dropout, .. } | LayerSpec::Deconv { dropout, .. } = l {
+                if i % 2 == 0 {
+                    *dropout = Some(500);
+                }
+            }
+        }
+        spec_owned = s2;
+        &spec_owned
+    } else {
+        spec
+    };
     let mut net = build(spec).map_err(|p| Fail::new(format!("valid layer sequence {:?} rejected: {}", spec, p)))?;
-    let ps = seeded_params(&net, spec, case.wseed, case.wmode, 1.0);
+    let mut ps = seeded_params(&net, spec, case.wseed, case.wmode, 1.0);
     apply_params(&mut net, &ps);
     let n_in = count(&spec.input);
+    if trained {
+        ev.class("sequence:after early-stopped training with dropout");
+        let od = final_dims(spec);
+        let mk = |k: u32| (tens::build(&spec.input, &payload(case.xseed ^ k, 1, n_in, 1.0)), tens::build(&od, &payload(case.wseed ^ k, 1, count(&od), 1.0)));
+        let (x1, y1) = mk(11);
+        let (x2, y2) = mk(22);
+        let (vx, vy) = mk(33);
+        net.set_optimizer(neurons::optimizer::SGD::create(0.015625, None));
+        let r = catch(std::panic::AssertUnwindSafe(|| net.learn(&vec![&x1, &x2], &vec![&y1, &y2], Some((&vec![&vx], &vec![&vy], 1)), 1, 4, None)));
+        match r {
+            Ok((tl, _, _)) => {
+                if tl.len() < 4 {
+                    ev.class("sequence:early stop fired");
+                }
+            }
+            Err(p) => {
+                if p.contains("Loss is NaN") {
+                    ev.discard = Some("training diverged to NaN");
+                    return Ok(());
+                }
+                // blocks with layers the library cannot train are outside this check
+                ev.discard = Some("training panicked (not the subject of C02)");
+                return Ok(());
+            }
+        }
+        ps = collect_params(&net);
+        if ps.iter().any(|(_, t)| tens::flat(t).iter().any(|v| !v.is_finite())) {
+            ev.discard = Some("non-finite trained weights");
+            return Ok(());
+        }
+    }
     let x = payload(case.xseed, case.xmode, n_in, case.xscale.min(1.0));
     let xt = tens::build(&spec.input, &x);
     let fw = catch(|| net.forward(&xt));
@@ -260,7 +313,7 @@ impl Prop for C02 {
         t.pick(40_000, 1_000_000)
     }
     fn rule(&self) -> String {
-        "tape-decoded cases: (3/4) one layer of a chosen kind (dense incl. soft-max, convolution, deconvolution, max-pool) over the configuration lattice channels 1-3, height/width 1-8 (thorough 1-12) non-square, filters 1-3, kernel 1-3 (5), stride 1-3 (4), padding 0-2, dilation 1-2 (3), constructed so that the effective kernel fits; distinct random taps and inputs at scales 0.01/1/30; each spatial layer is fed the c x h x w tensor and its flattening. (1/4) sequences of 2-5 fitting layers incl. feedback blocks without skips and flat<->spatial transitions. Oracles: f64 defining operators with a forward-error bound 4(n+1)eps*sum|terms| (max-pool exact), bitwise equality of both input representations, bitwise equality of Network::forward/predict with the fold of the library's own single-layer forwards, final output vs f64 reference network (2e-4 relative to the output scale, skipped near kinks/ties). Non-trivial: spatial layer or sequence. Distinct = full specification.".into()
+        "tape-decoded cases: (3/4) one layer of a chosen kind (dense incl. soft-max, convolution, deconvolution, max-pool) over the configuration lattice channels 1-3, height/width 1-8 (thorough 1-12) non-square, filters 1-3, kernel 1-3 (5), stride 1-3 (4), padding 0-2, dilation 1-2 (3), constructed so that the effective kernel fits; distinct random taps and inputs at scales 0.01/1/30 (dense also 300); each spatial layer is fed the c x h x w tensor and its flattening. (1/4) sequences of 2-5 fitting layers incl. feedback blocks without skips and flat<->spatial transitions; one in five of them is compared after a short early-stopped learn() run with dropout layers (trained weights read back through the hooks). Oracles: f64 defining operators with a forward-error bound 4(n+1)eps*sum|terms| (max-pool exact), bitwise equality of both input representations, bitwise equality of Network::forward/predict with the fold of the library's own single-layer forwards, final output vs f64 reference network (2e-4 relative to the output scale, skipped near kinks/ties). Non-trivial: spatial layer or sequence. Distinct = full specification.".into()
     }
     fn run_case(&self, tape: &[u32], ev: &mut CaseEv) -> CheckResult {
         let c = decode(tape, self.0);
